@@ -437,6 +437,10 @@ def r_capfwd(ctx, view):
         for ev in evs:
             if ev["kind"] == "cap":
                 caps.setdefault(ev["comp"], []).append(ev)
+                if ev["name"] != name and ev["name"] != "capacity":
+                    # a different capacity operation on a container (reserve_exact followed by shrink_to ..): the method no
+                    # longer guarantees what its name promises
+                    others.append("capacity call %s.%s line %d" % (ev["comp"], ev["name"], ev["span"]["line"]))
             elif ev["kind"] in ("tw", "mw", "mwraw"):
                 others.append("%s %s line %d" % (ev["kind"], ev.get("how") or ev.get("name"), ev["span"]["line"]))
             elif ev["kind"] in ("ext", "call") and ev["name"] not in ("branch", "from_residual", "from", "into", "map_err", "map", "and_then", "and", "ok") and ev["ci"].key not in (
@@ -532,8 +536,18 @@ def r_capfwd(ctx, view):
             ok = False
             why = "size starts at %s" % term_str(vals.get("size"))
     ctx.ob("R-CAPFWD", "Store::with_capacity_and_hasher:all-three", ok, f.loc(), why)
-    # capacity is semantically invisible: results of any capacity() call only ever become the result of a
-    # capacity accessor (never a branch condition or an argument)
+    r_capinvisible(ctx, view)
+    # conversions of both error kinds exist
+    fr = [i for i in prog.impls if i.get("trait") == "std::convert::From" and i["self_desc"] == "TryReserveError"]
+    ctx.ob("R-CAPFWD", "TryReserveError:From-both-sources", len(fr) == 2, "", "%d From impls for TryReserveError" % len(fr))
+
+
+def r_capinvisible(ctx, view):
+    """capacity is semantically invisible: results of any capacity() call only ever become the result of a capacity
+    accessor (never a branch condition or an argument).  Also what makes a clone - which does not keep the capacity -
+    behave like its source (C14)."""
+    prog = view.prog
+    ctx.cur = view
     n = 0
     for g in sorted(prog.fns.values(), key=lambda x: x.key):
         for bb, t in g.calls():
@@ -544,9 +558,6 @@ def r_capfwd(ctx, view):
                 ctx.ob("R-CAPFWD", "capacity-invisible:%s" % g.key, ok, g.loc(t["span"]),
                        "a capacity() result may only be returned by a `capacity` accessor; here it is used inside %s" % g.key)
     ctx.floor("R-CAPFWD:capacity-calls", n, 3)
-    # conversions of both error kinds exist
-    fr = [i for i in prog.impls if i.get("trait") == "std::convert::From" and i["self_desc"] == "TryReserveError"]
-    ctx.ob("R-CAPFWD", "TryReserveError:From-both-sources", len(fr) == 2, "", "%d From impls for TryReserveError" % len(fr))
 
 
 # ------------------------------------------------------------------------------------------
@@ -835,7 +846,16 @@ def r_unsafekinds(ctx, view):
                     continue
                 for pl in places_of_stmt(s):
                     if pl["proj"] and pl["proj"][0]["k"] == "deref" and f.local_ty(pl["local"]).get("k") == "ptr":
-                        ctx.ob("R-UNSAFEKINDS", "%s:raw-deref" % f.key, False, f.loc(s["span"]), "dereferences a raw pointer directly")
+                        # `&mut *p` / `&*p` (a plain reborrow, nothing read or moved out) inside an iterator step is the same
+                        # kind of operation as `p.as_mut()`: the lifetime extension that R-CURSOR governs
+                        root = f
+                        while root.is_closure:
+                            root = prog.fn(root.parent_fn)
+                        reborrow = s["rv"]["k"] == "ref" and s["rv"]["place"] is pl and len(pl["proj"]) == 1
+                        step = root.name in ("next", "next_back") and root.j.get("impl_trait") in ("std::iter::Iterator", "std::iter::DoubleEndedIterator")
+                        ok = reborrow and step
+                        ctx.ob("R-UNSAFEKINDS", "%s:raw-deref" % f.key, ok, f.loc(s["span"]),
+                               "reborrow of a raw pointer inside an iterator step (kind: lifetime extension, governed by R-CURSOR)" if ok else "dereferences a raw pointer directly")
         if f.j.get("unsafe") and f.key != "store::Store::get_priority_from_position" and (f.exported or f.key in view.fx.known_functions()):
             ctx.ob("R-UNSAFEKINDS", "%s:unsafe-fn" % f.key, False, f.loc(), "new exported `unsafe fn`")
     ctx.floor("R-UNSAFEKINDS", n, 40)
